@@ -339,6 +339,18 @@ def run(res, a):
     res.cases += 1
     res.count("kind:accessory-constructors")
     bad = [t for t in o.split(" ") if "!unclamped" in t]
+    # ... and what the constructor left stored lies within the range it declared (<type>=<value>/<min>/<max>)
+    for t in o.split(" "):
+        f = t.split(":")
+        for e in (f[5].split(",") if len(f) > 5 else []):
+            if "=" not in e or "!" in e:
+                continue
+            try:
+                v, mn, mx = [None if x in ("-", "nil", "") or x.startswith("?") else float(x.rstrip("if")) for x in e.split("=", 1)[1].split("/")]
+            except ValueError:
+                continue
+            if v is not None and ((mn is not None and v < mn) or (mx is not None and v > mx)):
+                bad.append("%s:%s,!unclamped(%s_stored_in_a_range_declared_%s..%s)" % (f[0], e.split("=")[0], v, mn, mx))
     if bad or o in ("NO-OUTPUT", "panic"):
         res.violations.append(("accessories", {"property": ID, "family": "catalog", "seed": res.seed, "case": "accessories", "implementation_observed": (bad[0] if bad else o)[:300],
                                                "required": "a characteristic inside a constructed accessory stores a value outside its declared range: " + (bad[0].split(":")[0] + " " + bad[0].split(",")[-1] if bad else o)[:200].replace("_", " "),
